@@ -14,7 +14,10 @@ RULE = ("cases: operation scripts run against a fresh regtest node (TestChain100
         "confirmed in blocks while the victim has unconfirmed descendants; (locks) nLockTime at height and median-time-past -1/0/+1, BIP68 height "
         "and time locks 0/1/2 on confirmed and unconfirmed parents, then a disconnect / a slow block; (chain) chains and trees of depth up to "
         "6, TrimToSize at several limits, clock jumps with Expire at age -1/0/+1, prioritisation; (random) random walks over all operations "
-        "with missing inputs, bad witnesses, zero fees, v1/v3 transactions, -maxmempool=5, -mempoolexpiry=1. After every operation: the "
+        "with missing inputs, bad witnesses, zero fees, v1/v3 transactions, -maxmempool=5, -mempoolexpiry=1; (package) ProcessNewPackage of a "
+        "child with its unconfirmed parents: a low-fee parent paid for by the child, two parents, a parent already in the pool, a package "
+        "replacing pool entries, refused packages (not child-with-parents, conflict in package, missing input), followed by a block or a "
+        "disconnect. After every operation: the "
         "dump of mapTx / mapNextTx / totals / TxGraph ancestors / input status in CoinsTip, CTxMemPool::check, TestBlockValidity of the whole "
         "pool. Non-trivial = at least one submission; distinct = distinct scripts.")
 ASSUMPTIONS = ["txids identify transactions among those in play (hash premise U_inj of the theorems); nLockTime is a uint32 (U_wf)",
@@ -23,6 +26,8 @@ ASSUMPTIONS = ["txids identify transactions among those in play (hash premise U_
                "the theorems hold for every such answer",
                "the parent/child graph is derived from the spends index; TxGraph's copy is compared with it on every dump (holds: graph-links) "
                "but is not a component of the model state",
+               "package submission is replayed as the sequence of single acceptances of the transactions the implementation added (in its "
+               "order), with LimitMempoolSize once at the end; which members of a package enter is the implementation's answer",
                "amounts (C01) and script execution (C12) are not modelled: script validity is a bit of the model transaction; sequence locks "
                "(BIP68, cached LockPoints) are transcribed and tied by the correspondence but not part of the proved invariant",
                "block validity is ConnectBlock's business: the model's block_ok keeps the structural checks the mempool argument needs "
@@ -50,6 +55,6 @@ LEVEL_TEXT = ("Coq theorems over ALL operation histories of an executable transc
               "lock-time, conflict and resurrection boundaries, with the node's own check() and TestBlockValidity of the whole pool as extra oracles.")
 LEVEL_NOTE = ("Trusted: Coq kernel, dump_params.cpp, extraction + driver glue. Named residue: policy decisions and eviction victims are taken "
               "from the implementation (quantified over in the theorems); TxGraph's dependency copy, BIP68 lock points and script validity "
-              "are covered by the correspondence / the node's oracles only; the 20 MB overflow of the disconnect queue and package "
-              "submission are not modelled.")
+              "are covered by the correspondence / the node's oracles only; the 20 MB overflow of the disconnect queue is not "
+              "modelled; package validation itself (C29) is taken from the implementation.")
 TECHNIQUE = "Coq proof (inductive invariant over all histories, graph closure with proved sufficient fuel, verified checker) + differential correspondence"
